@@ -130,7 +130,7 @@ theorem gs_execCmd (h : GS fr df w) (hes : EndSep w) (hsep : CondSep w) (ht : Ti
     (hlt : p < w.procs.size) (c : Cmd)
     (hcv : ∀ v, (c = .cancelUser v ∨ c = .timerCancel v) → NG w (getVar w p v)) :
     (execCmd w p c).1.fault = none → GH df (execCmd w p c).1 := by
-  have hat : ∀ k, Await.time k ∈ (w.proc p).awaits → NG w k := fun k hk => (ht p k hk).2
+  have hat : ∀ q k, Await.time k ∈ (w.proc q).awaits → NG w k := fun q k hk => (ht q k hk).2
   have hin : InertCmd c → GH df (execCmd w p c).1 := fun hc =>
     h.gh.inert h.ginv.ei (inert_execCmd c hc h.ginv.ei hcv hat)
   cases c with
